@@ -1,1 +1,600 @@
-import RaftLogModel.Model.Sys
+/-
+C02 — Clean restart equivalence.
+
+If every write has been flushed and the worker is idle, dropping the store and
+opening it again (with any configuration: other chunk limits, other cache
+limits) yields a store that reports the same state, the same index map and the
+same chunk table, touches no file, and satisfies the journal invariant again —
+so every later call behaves as before; any number of such cycles. If the new
+cache limits cover the `Append` records of the retained files, the reopened
+store refines the reference log again (every live entry resident), so reads
+and all of C01 continue.
+
+How it is proved.
+
+1. **The replay invariant** (`RSys y r`, Proofs/Replay*.lean). For the live
+   store there are record lists for every live chunk — closed chunks `jc`, open
+   chunk `jo` — such that
+   * each list is well-formed, starts with a `State` record, its sizes give the
+     chunk's offsets, and its encoding is exactly the chunk's bytes (file ++ in
+     flight inside the worker ++ pending buffer, as in the journal invariant `J`);
+   * replaying them in order from the empty state and the empty index map with
+     the cache-free projection of `Store.smApply` (`stRun` on the state,
+     `idxRun`/`idxLogO` on the index map; `c02_smApply_cache_free` says this IS
+     `smApply` projected to `(st, log)`, whatever the cache) succeeds and yields
+     exactly `(s.st, s.log)` (`c02_replay_spec`);
+   * after every closed chunk the replayed state is the recorded closing state,
+     every index entry is at or below its `last`, and the next chunk starts
+     with the `State` record of exactly that state (`RepC`);
+   * payloads (`PayG`): whenever the `Append` record an index entry points to is
+     in the retained journal, it carries the reference log's payload for that id;
+   * checks (`RunG`/`RecCheck`): along the retained journal, after its first
+     record, every `State` record keeps `last`, every truncation point is at or
+     above the entries it keeps and every purge point below the entries it keeps
+     (what the payload cache needs during replay);
+   * the state and the index map are those of the reference log `r` (`Abs`, a
+     refinement that says nothing about the cache, so it survives `drain` and
+     eviction), and the journal invariant `J` holds.
+   It holds for `Sys.fresh` and is kept by every legal, accepted, small call —
+   with chunk rotation (the head `State` record of the new chunk resets the
+   state to the same value) and with purges that drop closed chunks from the
+   front (index operations act pointwise per index; an entry a dropped chunk
+   contributed is at or below the chunk's closing `last ≤ upto`, and nothing
+   at or below `upto` is in the index map after the purge record) — by flushes,
+   worker steps of any outcome that leave the worker alive, `workerIdle` and
+   `drain` (`c02_replay_invariant`).
+
+2. **Which files are linked** (`LSys y`, Proofs/ReplayLinked.lean): the linked
+   files are exactly the live chunks, the chunks the store has scheduled for
+   removal and the chunks the worker still has to unlink; all of the latter lie
+   below every live chunk.
+
+3. **Restart** (`c02_clean_restart`). Hypotheses at the end of the history: the
+   worker is alive and quiet, `pending = []`, `removed = []` and the worker has
+   no postponed removals. The last two say that the removals ordered by purges
+   have been carried out: `pending = []` alone does not imply them (a rotation
+   right after a purge record empties the pending buffer; a failed sync
+   postpones removals), and without them `open` loads the not-yet-unlinked
+   obsolete chunks as additional closed chunks (`c02_removed_needed`).
+
+3b. **The refinement continues** (`c02_refinement_continues`,
+   `c02_history_after_restart`, Proofs/ReplayCache.lean): with enough cache
+   room no entry is evicted during replay; every index entry ends up resident
+   with the payload of the record it points to, which by `PayG` is the reference
+   payload; `Refines s' r` follows, and with it `c01_step`, `c01_read` and the
+   history theorem of C01 from the reopened store.
+
+4. **Cycles** (`c02_cycles`, `c02_cycles_refines`): the invariants hold again
+   after drop + open, so the argument repeats.
+-/
+import RaftLogModel.Proofs.ReplayRestart
+import RaftLogModel.Props.C01
+namespace RaftLog
+
+/-! ### 1. The cache-free projection of `smApply` -/
+
+/-- `smApply` projected to `(st, log)` is `RState.apply` and `idxLogO`: it
+succeeds iff both do, with their results; the cache plays no role. -/
+theorem c02_smApply_cache_free (s : Store) (r : Record) (chunk : Nat) (seg : Seg) :
+    (∀ s', s.smApply r chunk seg = .ok s' →
+      s.st.apply r = .ok s'.st ∧ idxLogO r chunk seg s.log = some s'.log) ∧
+    (∀ st1 l1, s.st.apply r = .ok st1 → idxLogO r chunk seg s.log = some l1 →
+      ∃ s', s.smApply r chunk seg = .ok s' ∧ s'.st = st1 ∧ s'.log = l1 ∧ s'.closed = s.closed ∧
+        s'.openOffsets = s.openOffsets ∧ s'.pending = s.pending ∧ s'.removed = s.removed) := by
+  constructor
+  · intro s' h
+    unfold Store.smApply at h
+    cases hi : s.applyIndex r chunk seg with
+    | none => rw [hi] at h; cases h
+    | some s1 =>
+      rw [hi] at h
+      simp only at h
+      have hst := applyIndex_st hi
+      have hlog := applyIndex_log hi
+      cases ha : s1.st.apply r with
+      | ok st' =>
+        rw [ha] at h
+        injection h with h
+        subst h
+        exact ⟨by rw [← hst]; exact ha, hlog⟩
+      | err k => rw [ha] at h; cases h
+      | panic m => rw [ha] at h; cases h
+  · intro st1 l1 h1 h2
+    obtain ⟨c, hc, _, _⟩ := smApply_of_runs s r chunk seg h1 h2
+    exact ⟨_, hc, rfl, rfl, rfl, rfl, rfl, rfl⟩
+
+/-- Two stores with the same state and index map (any caches, any limits):
+`smApply` gives the same state and index map, or fails on both. -/
+theorem c02_smApply_independent_of_cache (s1 s2 : Store) (h1 : s1.st = s2.st) (h2 : s1.log = s2.log)
+    (r : Record) (chunk : Nat) (seg : Seg) :
+    (∀ a, s1.smApply r chunk seg = .ok a → ∃ b, s2.smApply r chunk seg = .ok b ∧
+      b.st = a.st ∧ b.log = a.log) := by
+  intro a ha
+  obtain ⟨k1, k2⟩ := (c02_smApply_cache_free s1 r chunk seg).1 a ha
+  rw [h1] at k1
+  rw [h2] at k2
+  obtain ⟨b, hb, e1, e2, _⟩ := (c02_smApply_cache_free s2 r chunk seg).2 _ _ k1 k2
+  exact ⟨b, hb, e1, e2⟩
+
+/-! ### 2. The replay invariant -/
+
+/-- What `RSys y r` says. `flatRecs jc ++ jo` are all records of the retained
+journal in order; `flatOps jc ++ chunkOps s.openId jo` are the same records with
+their chunk id and segment `⟨offset, size⟩`. -/
+theorem c02_replay_spec {y : Sys} {r : RefLog} (h : RSys y r) :
+    ∃ s jc jo, y.store = some s ∧ y.worker.pc ≠ .dead ∧ J y ∧
+      jc.map (·.1) = s.closed ∧
+      (∀ p ∈ jc, AllWF p.2 ∧ (∃ st rest, p.2 = .state st :: rest) ∧
+        offsetsFrom p.1.id (recSizes p.2) = p.1.offsets ∧
+        fdata y.fs p.1.id ++ y.worker.inflight p.1.id = encAll p.2) ∧
+      (AllWF jo ∧ (∃ st rest, jo = .state st :: rest) ∧
+        offsetsFrom s.openId (recSizes jo) = s.openOffsets ∧
+        fdata y.fs s.openId ++ y.worker.inflight s.openId ++ s.pending = encAll jo) ∧
+      -- replaying everything from the empty state / index map gives (st, log)
+      stRun (flatRecs jc ++ jo) {} = some s.st ∧
+      idxRun (flatOps jc ++ chunkOps s.openId jo) [] = some s.log ∧
+      -- chunk by chunk, with the closing states and the bound on the index entries
+      (∃ stC lC, RepC jc {} [] stC lC ∧ stRun jo stC = some s.st ∧
+        idxRun (chunkOps s.openId jo) lC = some s.log) ∧
+      -- the reference log
+      s.st = r.state ∧ logKeys s.log = entKeys r.entries ∧ r.WF ∧
+      -- payloads of the records the index entries point to
+      (∀ e ∈ s.log, ∀ p, (⟨.append e.2.id p, e.2.chunk, ⟨e.2.off, e.2.size⟩⟩ : JOp)
+        ∈ flatOps jc ++ chunkOps s.openId jo → (e.2.id, p) ∈ r.entries) ∧
+      -- the checks along the journal after its first record
+      (∀ hd tl, flatOps jc ++ chunkOps s.openId jo = hd :: tl → ∀ x, hd.r = .state x →
+        RunOK tl x []) := by
+  have hJ := h.J
+  obtain ⟨s, hs, hd, hinv⟩ := h
+  obtain ⟨jc, jo, g, gp, gr⟩ := hinv.rep
+  obtain ⟨stC, lC, g1, g2, g3, _⟩ := g.run
+  refine ⟨s, jc, jo, hs, hd, hJ, g.closedEq, ?_, ?_, ?_, ?_, ⟨stC, lC, g1, g2, g3⟩,
+    hinv.abs.st, hinv.abs.log, hinv.abs.wf, gp, gr⟩
+  · intro p hp
+    obtain ⟨k1, k2, k3, k4⟩ := g.closedRecs p hp
+    have hlt := hinv.j.closed_lt (g.mem_closed hp)
+    have hne : ¬ s.openId = p.1.id := by omega
+    simp only [chunkBytes, hne, if_false, List.append_nil] at k4
+    exact ⟨k1, k2, k3, k4⟩
+  · obtain ⟨k1, k2, k3, k4⟩ := g.openRecs
+    simp only [chunkBytes, if_true] at k4
+    exact ⟨k1, k2, k3, k4⟩
+  · rw [stRun_append, g1.st]; exact g2
+  · rw [idxRun_append, g1.idx]; exact g3
+
+/-- (fresh) -/
+theorem c02_replay_fresh (cfg : Cfg) : RSys (Sys.fresh cfg) {} := fresh_RSys cfg
+
+/-- (call) A legal, accepted, well-formed, small op: the invariant is kept —
+whether or not the call rotates the chunk (once or, for a batch, several
+times) or drops closed chunks (purge) — and the call returns `ok`. -/
+theorem c02_replay_call {y : Sys} {r r' : RefLog} (h : RSys y r) (op : Op)
+    (hl : r.legal op = true) (hc : r.call op = .ok r') (hsm : op.small) (hwf : op.WF) :
+    RSys (y.step (.call op)) r' ∧ ∃ seg, (y.call op).1 = .ok seg :=
+  h.call hl hc hsm hwf
+
+theorem c02_replay_flush {y : Sys} {r : RefLog} (h : RSys y r) (cb : Option Nat) :
+    RSys (y.step (.flush cb)) r := h.flush cb
+
+theorem c02_replay_worker {y : Sys} {r : RefLog} (h : RSys y r) (out : Outcome)
+    (halive : (y.step (.worker out)).worker.pc ≠ .dead) : RSys (y.step (.worker out)) r :=
+  h.worker out halive
+
+theorem c02_replay_workerIdle {y : Sys} {r : RefLog} (h : RSys y r)
+    (halive : (y.step .workerIdle).worker.pc ≠ .dead) : RSys (y.step .workerIdle) r :=
+  h.workerIdle halive
+
+theorem c02_replay_drain {y : Sys} {r : RefLog} (h : RSys y r) : RSys (y.step .drain) r := h.drain
+
+/-- **The replay invariant holds along every legal history** of calls, flushes,
+worker steps, `workerIdle` and `drain` from a freshly opened store, if the
+worker is alive at the end. -/
+theorem c02_replay_invariant (cfg : Cfg) (steps : List Step) (r : RefLog)
+    (hsteps : ∀ st ∈ steps, st.journal = true)
+    (hlegal : RefLog.run {} (stepOps steps) = some r)
+    (hwf : ∀ op ∈ stepOps steps, op.WF ∧ op.small)
+    (halive : ((Sys.fresh cfg).run steps).worker.pc ≠ .dead) :
+    RSys ((Sys.fresh cfg).run steps) r :=
+  run_RSys steps _ {} r (fresh_RSys cfg) hsteps hlegal hwf halive
+
+/-- The linked files along the same histories: with nothing scheduled for
+removal (store list empty, worker has nothing postponed, queued or in hand)
+the linked ids are exactly the live chunk ids, oldest first. -/
+theorem c02_linked_files (cfg : Cfg) (steps : List Step) (s : Store)
+    (hsteps : ∀ st ∈ steps, st.journal = true) (hwf : ∀ op ∈ stepOps steps, op.WF)
+    (halive : ((Sys.fresh cfg).run steps).worker.pc ≠ .dead)
+    (hs : ((Sys.fresh cfg).run steps).store = some s) (hr : s.removed = [])
+    (hw : ((Sys.fresh cfg).run steps).worker.toRemove = []) :
+    ((Sys.fresh cfg).run steps).fs.linkedIds = s.closed.map Closed.id ++ [s.openId] := by
+  have hJ := run_J steps _ (fresh_J cfg) hsteps hwf halive
+  obtain ⟨s0, hs0, hli⟩ := run_LSys steps _ (fresh_LSys cfg) (fresh_J cfg) hsteps hwf halive
+  rw [hs] at hs0; cases hs0
+  obtain ⟨s1, hs1, _, hj⟩ := hJ
+  rw [hs] at hs1; cases hs1
+  rw [← Store.chunkIds_eq]
+  exact hli.linkedIds_eq hj hr hw
+
+/-! ### 3. The restart theorem -/
+
+/-- The state in which a restart is clean: worker alive and blocked on an empty
+queue, nothing pending, no removal outstanding in the store or the worker. -/
+def Sys.Clean (y : Sys) : Prop :=
+  ∃ s, y.store = some s ∧ y.worker.quiet = true ∧ s.pending = [] ∧ s.removed = [] ∧
+    y.worker.postponed = []
+
+/-- Drop + open from a clean state, in terms of the invariants. -/
+theorem c02_restart_step (y : Sys) (r : RefLog) (cfg' : Cfg) (h : CSys y r) (hc : y.Clean) :
+    ∃ s s', y.store = some s ∧ ((y.step .drop).step (.openWith cfg')).store = some s' ∧
+      ({ (y.step .drop) with cfg := cfg' } : Sys).open.1 = .ok () ∧
+      ({ (y.step .drop) with cfg := cfg' } : Sys).open.2.2 = [] ∧
+      (y.step .drop).fs = y.fs ∧ ((y.step .drop).step (.openWith cfg')).fs = y.fs ∧
+      s'.st = s.st ∧ s'.log = s.log ∧ s'.closed = s.closed ∧ s'.openOffsets = s.openOffsets ∧
+      s'.pending = [] ∧ s'.removed = [] ∧ s'.cfg = cfg' ∧
+      CSys ((y.step .drop).step (.openWith cfg')) r := by
+  obtain ⟨s, hs, hq, hp, hrem, hpost⟩ := hc
+  obtain ⟨s', k1, k2, k3, k4, k5, k6, k7, k8, k9, k10, k11, k12, _, _, k15, _⟩ :=
+    restart_core y s r cfg' h hs hq hp hrem hpost
+  exact ⟨s, s', hs, k1, k2, k3, k4, k5, k6, k7, k8, k9, k10, k11, k12, k15⟩
+
+/-- **C02, clean restart.** `y` is reached from a freshly opened store by a
+history of calls (legal and accepted for the reference log, reaching `r`;
+well-formed and small), flushes, worker steps, `workerIdle` and `drain`; at the
+end the worker is alive and quiet, nothing is pending and no chunk removal is
+outstanding. Then for every configuration `cfg'`, with `y1 := y.step .drop` and
+`y2 := y1.step (.openWith cfg')`:
+* `open` returns `ok` and `y2.store = some s'`;
+* no file is created, truncated, unlinked or written: the event list of that
+  `open` is `[]` and `y2.fs = y1.fs = y.fs` (not even a durable flag changes);
+* `s'.st = s.st = r.state`, `s'.log = s.log`;
+* `s'.closed = s.closed` (offsets AND recorded closing states) and
+  `s'.openOffsets = s.openOffsets`: the last chunk is reused as the open chunk;
+* `s'.pending = []`, `s'.removed = []`, `s'.cfg = cfg'`;
+* `J y2`: the journal invariant holds again, and so do the replay invariant and
+  the linked-files invariant (`CSys y2 r`), so everything proved for histories
+  from `Sys.fresh` continues from `y2`. -/
+theorem c02_clean_restart (cfg cfg' : Cfg) (steps : List Step) (r : RefLog) (s : Store)
+    (hsteps : ∀ st ∈ steps, st.journal = true)
+    (hlegal : RefLog.run {} (stepOps steps) = some r)
+    (hwf : ∀ op ∈ stepOps steps, op.WF ∧ op.small)
+    (halive : ((Sys.fresh cfg).run steps).worker.pc ≠ .dead)
+    (hs : ((Sys.fresh cfg).run steps).store = some s)
+    (hq : ((Sys.fresh cfg).run steps).worker.quiet = true)
+    (hp : s.pending = []) (hrem : s.removed = [])
+    (hpost : ((Sys.fresh cfg).run steps).worker.postponed = []) :
+    let y := (Sys.fresh cfg).run steps
+    let y1 := y.step .drop
+    let y2 := y1.step (.openWith cfg')
+    ∃ s', y2.store = some s' ∧
+      ({ y1 with cfg := cfg' } : Sys).open.1 = .ok () ∧
+      ({ y1 with cfg := cfg' } : Sys).open.2.2 = [] ∧
+      y1.fs = y.fs ∧ y2.fs = y.fs ∧
+      s'.st = s.st ∧ s'.st = r.state ∧ s'.log = s.log ∧
+      s'.closed.map (·.offsets) ++ [s'.openOffsets] = s.closed.map (·.offsets) ++ [s.openOffsets] ∧
+      s'.closed = s.closed ∧ s'.openOffsets = s.openOffsets ∧
+      s'.pending = [] ∧ s'.removed = [] ∧ s'.cfg = cfg' ∧
+      J y2 ∧ CSys y2 r := by
+  intro y y1 y2
+  have hC : CSys y r := run_CSys steps _ {} r (fresh_CSys cfg) hsteps hlegal hwf halive
+  obtain ⟨s', k1, k2, k3, k4, k5, k6, k7, k8, k9, k10, k11, k12, _, _, k15, _⟩ :=
+    restart_core y s r cfg' hC hs hq hp hrem hpost
+  obtain ⟨s0, hs0, _, hinv⟩ := hC.1
+  rw [hs] at hs0; cases hs0
+  exact ⟨s', k1, k2, k3, k4, k5, k6, by rw [k6]; exact hinv.abs.st, k7, by rw [k8, k9], k8, k9,
+    k10, k11, k12, k15.1.J, k15⟩
+
+/-! ### 3b. The refinement continues -/
+
+/-- **C02, the refinement continues.** If moreover the cache limits of `cfg'`
+cover all `Append` records in the retained chunk files (`fileAppends`: what
+`open` will read; during replay the cache may also hold entries that a later
+record of the journal purges), then no entry is evicted while `open` replays the
+journal and the reopened store refines the same reference log `r` (`Refines`:
+state, index map, every live entry resident with its payload, cache invariant):
+every `read` returns exactly `r`'s entries, and `c01_step` / `c01_read` apply to
+it. The cache holds at most the `Append` records of the files, so `SysRef`
+holds with the remaining room as budget. -/
+theorem c02_refinement_continues (cfg cfg' : Cfg) (steps : List Step) (r : RefLog) (s : Store)
+    (hsteps : ∀ st ∈ steps, st.journal = true)
+    (hlegal : RefLog.run {} (stepOps steps) = some r)
+    (hwf : ∀ op ∈ stepOps steps, op.WF ∧ op.small)
+    (halive : ((Sys.fresh cfg).run steps).worker.pc ≠ .dead)
+    (hs : ((Sys.fresh cfg).run steps).store = some s)
+    (hq : ((Sys.fresh cfg).run steps).worker.quiet = true)
+    (hp : s.pending = []) (hrem : s.removed = [])
+    (hpost : ((Sys.fresh cfg).run steps).worker.postponed = [])
+    (hN : (fileAppends ((Sys.fresh cfg).run steps).fs).length ≤ cfg'.cacheItems)
+    (hB : sumLen (fileAppends ((Sys.fresh cfg).run steps).fs) ≤ cfg'.cacheCap) :
+    let y := (Sys.fresh cfg).run steps
+    let y2 := (y.step .drop).step (.openWith cfg')
+    ∃ s', y2.store = some s' ∧ Refines s' r ∧
+      (∀ a b, (s'.read y2.fs a b).1 = (r.read a b).map (fun e => ReadItem.ok e.1 e.2)) ∧
+      s'.iter y2.fs = r.entries.map (fun e => ReadItem.ok e.1 e.2) ∧
+      SysRef y2 r (cfg'.cacheItems - (fileAppends y.fs).length)
+        (cfg'.cacheCap - sumLen (fileAppends y.fs)) := by
+  intro y y2
+  have hC : CSys y r := run_CSys steps _ {} r (fresh_CSys cfg) hsteps hlegal hwf halive
+  obtain ⟨s', k1, _, _, _, _, _, _, _, _, _, _, _, k13, k14, k15, k16⟩ :=
+    restart_core y s r cfg' hC hs hq hp hrem hpost
+  have hN' : (fileAppends y.fs).length ≤ cfg'.cacheItems := hN
+  have hB' : sumLen (fileAppends y.fs) ≤ cfg'.cacheCap := hB
+  obtain ⟨href, hcnt, hbyt⟩ := k16 hN' hB'
+  obtain ⟨s0, hs0, _, hj⟩ := k15.1.J
+  rw [k1] at hs0; cases hs0
+  exact ⟨s', k1, href, fun a b => href.read _ a b, href.iter _,
+    ⟨s', k1, href, hj.fsLt, by rw [k13]; omega, by rw [k14]; omega⟩⟩
+
+/-- **... and so does the history.** After the restart, any further history of
+calls, flushes and worker steps whose calls are legal and accepted from `r`
+(reaching `r2`), small, and whose appended entries fit the room the cache has
+left: the final store reports `r2`'s state, every read returns exactly `r2`'s
+entries, and every call along the way was accepted (`c01` from the reopened
+store). -/
+theorem c02_history_after_restart (cfg cfg' : Cfg) (steps more : List Step) (r r2 : RefLog)
+    (s : Store)
+    (hsteps : ∀ st ∈ steps, st.journal = true)
+    (hlegal : RefLog.run {} (stepOps steps) = some r)
+    (hwf : ∀ op ∈ stepOps steps, op.WF ∧ op.small)
+    (halive : ((Sys.fresh cfg).run steps).worker.pc ≠ .dead)
+    (hs : ((Sys.fresh cfg).run steps).store = some s)
+    (hq : ((Sys.fresh cfg).run steps).worker.quiet = true)
+    (hp : s.pending = []) (hrem : s.removed = [])
+    (hpost : ((Sys.fresh cfg).run steps).worker.postponed = [])
+    (hmore : ∀ st ∈ more, st.c01 = true) (hlegal2 : r.run (stepOps more) = some r2)
+    (hsmall2 : ∀ op ∈ stepOps more, op.small)
+    (hN : (fileAppends ((Sys.fresh cfg).run steps).fs).length + opsCount (stepOps more)
+      ≤ cfg'.cacheItems)
+    (hB : sumLen (fileAppends ((Sys.fresh cfg).run steps).fs) + opsBytes (stepOps more)
+      ≤ cfg'.cacheCap) :
+    let y2 := (((Sys.fresh cfg).run steps).step .drop).step (.openWith cfg')
+    (∃ s2, (y2.run more).store = some s2 ∧ s2.st = r2.state ∧
+      (∀ a b, (s2.read (y2.run more).fs a b).1 = (r2.read a b).map (fun e => ReadItem.ok e.1 e.2)) ∧
+      s2.iter (y2.run more).fs = r2.entries.map (fun e => ReadItem.ok e.1 e.2)) ∧
+    (∀ pre op post, more = pre ++ Step.call op :: post →
+      ∃ s3 seg, (y2.run pre).store = some s3 ∧ (s3.call (y2.run pre).fs.has op).1 = .ok seg) := by
+  intro y2
+  obtain ⟨s', _, _, _, _, href⟩ := c02_refinement_continues cfg cfg' steps r s hsteps hlegal hwf halive
+    hs hq hp hrem hpost (by omega) (by omega)
+  obtain ⟨⟨s2, hs2, href2, _⟩, hcalls⟩ := run_sysRef more y2 r r2
+    (href.mono (by omega) (by omega)) hmore hlegal2 hsmall2
+  refine ⟨⟨s2, hs2, href2.st, fun a b => href2.read _ a b, href2.iter _⟩, ?_⟩
+  intro pre op post hsplit
+  obtain ⟨s3, seg, h1, h2, _⟩ := hcalls pre op post hsplit
+  exact ⟨s3, seg, h1, h2⟩
+
+/-- Why `removed = []` is a hypothesis. Chunks hold two records; the purge
+record fills the open chunk, the rotation empties the pending buffer, and the
+three purged chunks are still on the removal list (the worker is quiet, nothing
+is pending). After drop + open the state and the index map are still the same,
+but the three obsolete chunks — whose files are still linked — are loaded as
+closed chunks. -/
+def c02RemovedExample : Sys :=
+  (Sys.fresh { maxRecords := 2 }).run
+    [.call (.append [(⟨1, 0⟩, [1])]), .call (.append [(⟨1, 1⟩, [2])]), .call (.purge ⟨1, 1⟩),
+     .workerIdle]
+
+theorem c02_removed_needed :
+    c02RemovedExample.worker.quiet = true ∧
+    c02RemovedExample.store.map (fun s => (s.pending, s.removed, s.closed.map Closed.id, s.openId))
+      = some ([], [0, 51, 118], [], 180) ∧
+    ((c02RemovedExample.step .drop).step (.openWith { maxRecords := 2 })).store.map
+      (fun s => (s.closed.map Closed.id, s.openId)) = some ([0, 51, 118], 180) ∧
+    ((c02RemovedExample.step .drop).step (.openWith { maxRecords := 2 })).store.map
+      (fun s => (s.st, s.log)) = c02RemovedExample.store.map (fun s => (s.st, s.log)) := by
+  decide +kernel
+
+/-! ### 4. Any number of cycles -/
+
+/-- A history segment, then drop, then open with the given configuration. -/
+def Sys.runCycle (y : Sys) (seg : List Step × Cfg) : Sys :=
+  ((y.run seg.1).step .drop).step (.openWith seg.2)
+
+def Sys.runCycles (y : Sys) (segs : List (List Step × Cfg)) : Sys := segs.foldl Sys.runCycle y
+
+/-- Every segment ends in a clean state with a live worker. -/
+def CleanCycles : Sys → List (List Step × Cfg) → Prop
+  | _, [] => True
+  | y, seg :: rest =>
+    (y.run seg.1).worker.pc ≠ .dead ∧ (y.run seg.1).Clean ∧ CleanCycles (y.runCycle seg) rest
+
+/-- All ops of the segments, in order. -/
+def cycleOps : List (List Step × Cfg) → List Op
+  | [] => []
+  | seg :: rest => stepOps seg.1 ++ cycleOps rest
+
+theorem cycles_CSys (segs : List (List Step × Cfg)) : ∀ (y : Sys) (r r' : RefLog), CSys y r →
+    (∀ seg ∈ segs, ∀ st ∈ seg.1, st.journal = true) → r.run (cycleOps segs) = some r' →
+    (∀ op ∈ cycleOps segs, op.WF ∧ op.small) → CleanCycles y segs →
+    CSys (y.runCycles segs) r' := by
+  induction segs with
+  | nil =>
+    intro y r r' h _ hr _ _
+    simp only [cycleOps, RefLog.run, Option.some.injEq] at hr; subst hr
+    exact h
+  | cons seg rest ih =>
+    intro y r r' h hst hr hwf hclean
+    obtain ⟨hnd, hc, hrest⟩ := hclean
+    simp only [cycleOps, RefLog.run_append] at hr
+    cases hr1 : r.run (stepOps seg.1) with
+    | none => rw [hr1] at hr; cases hr
+    | some r1 =>
+      rw [hr1] at hr
+      simp only [Option.bind_some] at hr
+      have h1 : CSys (y.run seg.1) r1 :=
+        run_CSys seg.1 y r r1 h (hst seg List.mem_cons_self) hr1
+          (fun op hop => hwf op (by simp only [cycleOps]; exact List.mem_append_left _ hop)) hnd
+      obtain ⟨_, _, _, _, _, _, _, _, _, _, _, _, _, _, _, h2⟩ :=
+        c02_restart_step (y.run seg.1) r1 seg.2 h1 hc
+      simp only [Sys.runCycles, List.foldl_cons]
+      exact ih (y.runCycle seg) r1 r' h2 (fun sg hsg => hst sg (List.mem_cons_of_mem _ hsg)) hr
+        (fun op hop => hwf op (by simp only [cycleOps]; exact List.mem_append_right _ hop)) hrest
+
+/-- **C02, cycles.** Any number of segments, each a history of calls, flushes,
+worker steps, `workerIdle`, `drain` that ends clean and is followed by drop +
+open with its own configuration, then a final history `last`: if all calls, in
+order, are legal and accepted by the reference log from the empty log, reaching
+`r` (well-formed, small) and the worker is alive at the end, the final store
+reports `r`'s state, its index map lists exactly `r`'s entries (index and id),
+and the journal, replay and linked-files invariants hold. -/
+theorem c02_cycles (cfg : Cfg) (segs : List (List Step × Cfg)) (last : List Step) (r : RefLog)
+    (hsegs : ∀ seg ∈ segs, ∀ st ∈ seg.1, st.journal = true)
+    (hlast : ∀ st ∈ last, st.journal = true)
+    (hlegal : RefLog.run {} (cycleOps segs ++ stepOps last) = some r)
+    (hwf : ∀ op ∈ cycleOps segs ++ stepOps last, op.WF ∧ op.small)
+    (hclean : CleanCycles (Sys.fresh cfg) segs)
+    (halive : (((Sys.fresh cfg).runCycles segs).run last).worker.pc ≠ .dead) :
+    let y := ((Sys.fresh cfg).runCycles segs).run last
+    ∃ s, y.store = some s ∧ s.st = r.state ∧
+      s.log.map (fun e => (e.1, e.2.id)) = r.entries.map (fun e => (e.1.index, e.1)) ∧
+      J y ∧ CSys y r := by
+  intro y
+  rw [RefLog.run_append] at hlegal
+  cases hr1 : RefLog.run {} (cycleOps segs) with
+  | none => rw [hr1] at hlegal; cases hlegal
+  | some r1 =>
+    rw [hr1] at hlegal
+    simp only [Option.bind_some] at hlegal
+    have h1 := cycles_CSys segs (Sys.fresh cfg) {} r1 (fresh_CSys cfg) hsegs hr1
+      (fun op hop => hwf op (List.mem_append_left _ hop)) hclean
+    have h2 : CSys y r := run_CSys last _ r1 r h1 hlast hlegal
+      (fun op hop => hwf op (List.mem_append_right _ hop)) halive
+    obtain ⟨s, hs, _, hinv⟩ := h2.1
+    exact ⟨s, hs, hinv.abs.st, hinv.abs.log, h2.1.J, h2⟩
+
+/-- The refinement after a restart, from the invariants alone (so it applies
+after any number of earlier cycles, `c02_cycles_refines`). -/
+theorem c02_restart_refines (y : Sys) (r : RefLog) (cfg' : Cfg) (h : CSys y r) (hc : y.Clean)
+    (hN : (fileAppends y.fs).length ≤ cfg'.cacheItems)
+    (hB : sumLen (fileAppends y.fs) ≤ cfg'.cacheCap) :
+    ∃ s', ((y.step .drop).step (.openWith cfg')).store = some s' ∧ Refines s' r ∧
+      ((y.step .drop).step (.openWith cfg')).fs = y.fs ∧
+      SysRef ((y.step .drop).step (.openWith cfg')) r
+        (cfg'.cacheItems - (fileAppends y.fs).length) (cfg'.cacheCap - sumLen (fileAppends y.fs)) ∧
+      CSys ((y.step .drop).step (.openWith cfg')) r := by
+  obtain ⟨s, hs, hq, hp, hrem, hpost⟩ := hc
+  obtain ⟨s', k1, _, _, _, k5, _, _, _, _, _, _, _, k13, k14, k15, k16⟩ :=
+    restart_core y s r cfg' h hs hq hp hrem hpost
+  obtain ⟨href, hcnt, hbyt⟩ := k16 hN hB
+  obtain ⟨s0, hs0, _, hj⟩ := k15.1.J
+  rw [k1] at hs0; cases hs0
+  exact ⟨s', k1, href, k5, ⟨s', k1, href, hj.fsLt, by rw [k13]; omega, by rw [k14]; omega⟩, k15⟩
+
+/-- **C02, cycles, with the refinement at the end.** After any number of clean
+cycles (any configurations, any cache limits, `drain` allowed) and a final
+history that ends clean, a restart whose cache limits cover the `Append`
+records of the retained files yields a store that refines the reference log:
+every read returns exactly its entries. -/
+theorem c02_cycles_refines (cfg cfg' : Cfg) (segs : List (List Step × Cfg)) (last : List Step)
+    (r : RefLog)
+    (hsegs : ∀ seg ∈ segs, ∀ st ∈ seg.1, st.journal = true)
+    (hlast : ∀ st ∈ last, st.journal = true)
+    (hlegal : RefLog.run {} (cycleOps segs ++ stepOps last) = some r)
+    (hwf : ∀ op ∈ cycleOps segs ++ stepOps last, op.WF ∧ op.small)
+    (hclean : CleanCycles (Sys.fresh cfg) segs)
+    (halive : (((Sys.fresh cfg).runCycles segs).run last).worker.pc ≠ .dead)
+    (hc : (((Sys.fresh cfg).runCycles segs).run last).Clean)
+    (hN : (fileAppends (((Sys.fresh cfg).runCycles segs).run last).fs).length ≤ cfg'.cacheItems)
+    (hB : sumLen (fileAppends (((Sys.fresh cfg).runCycles segs).run last).fs) ≤ cfg'.cacheCap) :
+    let y2 := (((((Sys.fresh cfg).runCycles segs).run last).step .drop).step (.openWith cfg'))
+    ∃ s', y2.store = some s' ∧ Refines s' r ∧
+      (∀ a b, (s'.read y2.fs a b).1 = (r.read a b).map (fun e => ReadItem.ok e.1 e.2)) := by
+  intro y2
+  obtain ⟨_, _, _, _, _, hC⟩ := c02_cycles cfg segs last r hsegs hlast hlegal hwf hclean halive
+  obtain ⟨s', k1, href, _, _, _⟩ := c02_restart_refines _ r cfg' hC hc hN hB
+  exact ⟨s', k1, href, fun a b => href.read _ a b⟩
+
+/-! ### Non-vacuity -/
+
+/-- A legal history with chunk rotation after every second record, a truncate
+and re-append, a purge that drops closed chunks, `drain`, flushes and worker
+steps, ending clean. -/
+def c02Example : List Step :=
+  [ .call (.saveVote ⟨1, 7⟩),
+    .call (.append [(⟨1, 0⟩, [1, 2, 3]), (⟨1, 1⟩, [4]), (⟨1, 2⟩, [5, 6])]),
+    .flush (some 0),
+    .worker .ok,
+    .worker (.short 3),
+    .call (.truncate 2),
+    .call (.append [(⟨2, 2⟩, [9])]),
+    .call (.purge ⟨1, 0⟩),
+    .drain,
+    .call (.saveUserData (some [42])),
+    .flush none,
+    .workerIdle ]
+
+/-- The hypotheses of `c02_clean_restart` hold for it (computed by the model):
+the steps are of the kinds covered, the ops legal, well-formed and small; at
+the end the worker is alive and quiet, nothing is pending or scheduled for
+removal; six closed chunks are live and two chunk files have been unlinked. -/
+example :
+    (∀ st ∈ c02Example, st.journal = true) ∧
+    (RefLog.run {} (stepOps c02Example)).isSome = true ∧
+    (∀ op ∈ stepOps c02Example, op.WF ∧ op.small) ∧
+    ((Sys.fresh { maxRecords := 2 }).run c02Example).worker.pc ≠ .dead ∧
+    ((Sys.fresh { maxRecords := 2 }).run c02Example).worker.quiet = true ∧
+    ((Sys.fresh { maxRecords := 2 }).run c02Example).worker.postponed = [] ∧
+    (∃ s, ((Sys.fresh { maxRecords := 2 }).run c02Example).store = some s ∧ s.pending = [] ∧
+      s.removed = [] ∧ s.closed.length = 6) ∧
+    (((Sys.fresh { maxRecords := 2 }).run c02Example).fs.filter (fun f => !f.linked)).length = 2 := by
+  refine ⟨by decide, by decide, ?_, by decide, by decide, by decide, ⟨_, rfl, by decide, by decide, by decide⟩,
+    by decide⟩
+  intro op hop
+  simp only [c02Example, stepOps, List.mem_cons, List.not_mem_nil, or_false] at hop
+  rcases hop with h | h | h | h | h | h <;> subst h <;>
+    simp [Op.WF, Op.small, LogId.WF, bytesWF, smallId, U64, U32]
+
+/-- And the conclusion on this history, computed by the model: reopened with
+other chunk and cache limits, the store has the same state, index map and
+chunk table, and the file system is unchanged. -/
+example :
+    ((((Sys.fresh { maxRecords := 2 }).run c02Example).step .drop).step
+        (.openWith { maxRecords := 3, cacheItems := 1 })).store.map
+      (fun s => (s.st, s.log, s.closed)) =
+      ((Sys.fresh { maxRecords := 2 }).run c02Example).store.map (fun s => (s.st, s.log, s.closed)) ∧
+    ((((Sys.fresh { maxRecords := 2 }).run c02Example).step .drop).step
+        (.openWith { maxRecords := 3, cacheItems := 1 })).store.map
+      (fun s => (s.openOffsets, s.pending, s.removed)) =
+      ((Sys.fresh { maxRecords := 2 }).run c02Example).store.map
+        (fun s => (s.openOffsets, s.pending, s.removed)) ∧
+    ((((Sys.fresh { maxRecords := 2 }).run c02Example).step .drop).step
+        (.openWith { maxRecords := 3, cacheItems := 1 })).fs
+      = ((Sys.fresh { maxRecords := 2 }).run c02Example).fs := by
+  decide +kernel
+
+/-- The additional hypothesis of `c02_refinement_continues` on this history:
+the retained files hold three `Append` records with four payload bytes (one of
+them, `(1,2)`, was truncated later — it is in the files but not live), so cache
+limits of 3 entries / 4 bytes suffice; and the conclusion computed by the
+model: both live entries are read back from the reopened store. -/
+example :
+    (fileAppends ((Sys.fresh { maxRecords := 2 }).run c02Example).fs).length = 3 ∧
+    sumLen (fileAppends ((Sys.fresh { maxRecords := 2 }).run c02Example).fs) = 4 ∧
+    ((((Sys.fresh { maxRecords := 2 }).run c02Example).step .drop).step
+        (.openWith { maxRecords := 3, cacheItems := 3, cacheCap := 4 })).store.map
+      (fun s => (s.read ((Sys.fresh { maxRecords := 2 }).run c02Example).fs 0 10).1)
+      = some [ReadItem.ok ⟨1, 1⟩ [4], ReadItem.ok ⟨2, 2⟩ [9]] := by
+  decide +kernel
+
+/-- `Sys.Clean` as a computable check. -/
+def Sys.cleanB (y : Sys) : Bool :=
+  match y.store with
+  | some s => y.worker.quiet && s.pending.isEmpty && s.removed.isEmpty && y.worker.postponed.isEmpty
+  | none => false
+
+theorem Sys.clean_of_cleanB {y : Sys} (h : y.cleanB = true) : y.Clean := by
+  unfold Sys.cleanB at h
+  cases hs : y.store with
+  | none => rw [hs] at h; cases h
+  | some s =>
+    rw [hs] at h
+    simp only [Bool.and_eq_true, List.isEmpty_iff] at h
+    exact ⟨s, hs, h.1.1.1, h.1.1.2, h.1.2, h.2⟩
+
+/-- A second cycle on top: `CleanCycles` is satisfiable with two segments. -/
+example :
+    CleanCycles (Sys.fresh { maxRecords := 2 })
+      [(c02Example, { maxRecords := 3 }),
+       ([.call (.append [(⟨2, 3⟩, [7])]), .flush none, .workerIdle], { maxRecords := 2 })] := by
+  refine ⟨by decide +kernel, Sys.clean_of_cleanB (by decide +kernel), by decide +kernel,
+    Sys.clean_of_cleanB (by decide +kernel), trivial⟩
+
+end RaftLog
